@@ -53,6 +53,12 @@ checks.update({
    note="Harness ANM writer/reader trusted; the real CLI runs as a subprocess on real files.",
    technique="exhaustive pixel-value enumeration and bounded exhaustive enumeration of source orderings / sizes / offsets through the real CLI"),
 })
+checks.update({
+ "C10": dict(level=MC, ref="DESIGN.md §4 C10",
+   text="Every scope tree up to the stated size over uses, locals (with initialisers), consts, blocks, ifs, loops and functions with parameters, with identifiers drawn from a 3-name pool that includes a register alias, is resolved by the real resolve_names; Ok/Err and the def-equivalence classes of all identifier occurrences are compared with the M5 scope model; for function-free programs the injectively renamed program must compile to identical instructions.",
+   note="M5 (harness scope model) trusted; cases the statement leaves open (same-block local/const clash, parameter redeclared in the function's top block, circular consts) are only required not to crash.",
+   technique="bounded exhaustive enumeration of scope trees against a reference scope model, plus differential compilation under renaming"),
+})
 pending = {}
 def main():
     try:
